@@ -114,6 +114,9 @@ func vC15DrawOptions(rt *rapid.T, label string) query.IteratorOptions {
 		opt.Fill, opt.FillValue = influxql.NumberFill, float64(rapid.IntRange(-3, 3).Draw(rt, label+".fillv"))+0.5
 	case 2:
 		opt.Fill = influxql.PreviousFill
+	case 3:
+		// fill(<integer>) as the InfluxQL parser produces it
+		opt.Fill, opt.FillValue = influxql.NumberFill, int64(rapid.IntRange(-3, 300).Draw(rt, label+".fillInt"))
 	}
 	opt.Limit = rapid.IntRange(0, 3).Draw(rt, label+".limit")
 	opt.Offset = rapid.IntRange(0, 2).Draw(rt, label+".offset")
